@@ -262,3 +262,25 @@ Definition idxallb (s : state) : bool :=
   matchb k3_eqb (reds (stake s)) (idx35 (stake s)) && matchb k3_eqb (reds (stake s)) (idx36 (stake s)) && idx38b s.
 
 Definition balposb (s : state) : bool := forallb (fun kv : (Z * Z) * Z => 0 <=? snd kv) (bal s).
+
+(* the remaining components of the reachable-state invariant (M_MigrateHistory.Inv) in decidable form, evaluated on the
+   real application's states in the correspondence run: no entry on hold, no negative entry balance; every queued
+   proposal id exists with the queue's status and end time; ids below the counter; deposits non-negative *)
+Definition entb (s : state) : bool :=
+  forallb (fun kv : k2 * ubd_rec =>
+     forallb (fun e => (ue_hold e <=? 0) && (0 <=? ue_bal e)) (u_entries (snd kv))) (ubds (stake s)) &&
+  forallb (fun kv : k3 * red_rec => forallb (fun e => re_hold e <=? 0) (r_entries (snd kv))) (reds (stake s)).
+Definition govqb (s : state) : bool :=
+  let g := gov s in
+  forallb (fun x : Z * Z =>
+     match sget Z.eqb (snd x) (props g) with
+     | Some p => match p_status p with PDeposit => fst x =? p_dep_end p | _ => false end
+     | None => false end) (inactiveq g) &&
+  forallb (fun x : Z * Z =>
+     match sget Z.eqb (snd x) (props g) with
+     | Some p => match p_status p with PVoting => fst x =? p_vote_end p | _ => false end
+     | None => false end) (activeq g) &&
+  forallb (fun kv : Z * proposal => fst kv <? next_pid g) (props g) &&
+  forallb (fun kv : k2 * Z => 0 <=? snd kv) (deposits g) &&
+  nodupb Z.eqb (keys (props g)).
+Definition invb (s : state) : bool := entb s && govqb s.
